@@ -172,6 +172,73 @@ Proof.
 Qed.
 Print Assumptions c13_limit_across_polls.
 
+(* Failures counted against ground truth, for every run (list of polls with unique trial ids per poll): a trial the
+   backend shows as failed is recorded as failed for that poll WHATEVER the scheduler answered for its new results in
+   the same batch (a STOP/PAUSE does not un-fail a job) ... *)
+Theorem c13_shown_failure_recorded :
+  forall statuses results ss t, NoDup (map fst statuses) -> In (t, S_Failed) statuses ->
+    lookup t (poll_done (statuses, results, ss)) = Some S_Failed.
+Proof. exact poll_failed_recorded. Qed.
+Print Assumptions c13_shown_failure_recorded.
+
+(* ... so for every set F of distinct trials shown as failed that do not finish again later (a failed trial that is
+   resumed is finding F-C13-1), the number of failed entries handed to the failure limit is at least |F|, and as soon
+   as |F| > max_failures -- max_failures = 0 included -- the run ends with the error naming a failed trial. *)
+Theorem c13_limit_ground_truth :
+  forall polls (F : list Z) mf, NoDup F -> (forall t, In t F -> shown_failed_last polls t) ->
+    (length F <= num_failed (accumulate (map poll_done polls)))%nat /\
+    ((mf < length F)%nat -> exists t', tuner_end mf polls = Some t' /\ In (t', S_Failed) (accumulate (map poll_done polls))).
+Proof. exact ground_truth_limit. Qed.
+Print Assumptions c13_limit_ground_truth.
+
+Example c13_ground_truth_example :
+  (* trial 0 crashes in the poll that also delivers its report answered with PAUSE; max_failures = 0 *)
+  let polls := [([(0, S_Failed); (1, S_InProgress)], [(0, PAUSE); (1, CONTINUE)], []);
+                ([(1, S_Completed)], [(1, CONTINUE)], [])] in
+  shown_failed_last polls 0 /\ tuner_end 0 polls = Some 0.
+Proof.
+  split; [|vm_compute; reflexivity].
+  exists [], [(0, S_Failed); (1, S_InProgress)], [(0, PAUSE); (1, CONTINUE)], [], [([(1, S_Completed)], [(1, CONTINUE)], [])].
+  split; [reflexivity|]. split; [repeat constructor; cbn; intuition; discriminate|]. split; [left; reflexivity|].
+  intros p [<-|[]]. vm_compute. intuition; discriminate.
+Qed.
+
+(* No-repeat promise after a failure, for every allow_duplicates setting: the configurations a searcher must not
+   propose are those of pending and failed trials, plus those of observed trials unless allow_duplicates=True in
+   the model-based phase ([skip_observed]); a failed (or pending) trial is in that set in BOTH settings, and a
+   configuration drawn from restrict_configurations is never the configuration of such a trial (for every random
+   position stream). Together with c13_failed_stays_excluded the black-listing is permanent. *)
+Theorem c13_failed_excluded_all_settings :
+  forall skip_observed s t, (In t (failed s) \/ exists r, In (t, r) (pend s)) -> In t (exclusion_trials skip_observed s).
+Proof. intros b s t [H|[r H]]; [exact (failed_excluded b s t H) | exact (pending_excluded b s t r H)]. Qed.
+Print Assumptions c13_failed_excluded_all_settings.
+
+Theorem c13_restricted_draw_avoids_failed :
+  forall (C : Type) (eqb : C -> C -> bool) (config_of : Z -> C) rc skip_observed s draws c t,
+    (forall x, eqb x x = true) ->
+    draw_restricted eqb rc (map config_of (exclusion_trials skip_observed s)) draws = Some c ->
+    In t (failed s) \/ (exists r, In (t, r) (pend s)) -> c <> config_of t.
+Proof. intros C eqb config_of rc b s draws c t. exact (restricted_draw_avoids_failed eqb config_of rc b s draws c t). Qed.
+Print Assumptions c13_restricted_draw_avoids_failed.
+
+Example c13_restricted_example :
+  let s := {| obs := [((0, 1), 1 # 2)]; pend := []; failed := [1] |} in
+  exclusion_trials true s = [1] /\ exclusion_trials false s = [1; 0] /\
+  draw_restricted Z.eqb [10; 11; 12] (map (fun t => 10 + t) (exclusion_trials true s)) [1; 1; 0]%nat = Some 10.
+Proof. vm_compute. repeat split; reflexivity. Qed.
+
+(* the state handed to the surrogate can always be constructed after failures (config_for_trial covers failed
+   trials): c14_fitted_data, restated here for the "without raising" part of C13 *)
+Theorem c13_fit_state_constructible :
+  forall cfg h st choose cap, wf_config cfg = true -> legal_hist cfg init h -> run cfg init h = Ok st -> choose_ok choose ->
+    exists s', cap_state choose cap (map fst (trials st)) (srch st) = Some (map fst (trials st), s') /\
+               failed s' = failed (srch st) /\ pend s' = pend (srch st).
+Proof.
+  intros cfg h st choose cap H1 H2 H3 H4. destruct (fitted_data cfg h st choose cap H1 H2 H3 H4) as [s' [A [_ [B [C _]]]]].
+  exists s'. auto.
+Qed.
+Print Assumptions c13_fit_state_constructible.
+
 (* non-vacuity of the synchronous theorem: one bracket (3 slots @ 1, 1 slot @ 3); trial 1 fails while pending, the
    others report, the rung completes without waiting, the next suggestion resumes a trial at level 3, which
    then fails after the resume; promotion rule here: the first n trials of the rung *)
